@@ -14,14 +14,14 @@ AXIOMS = {
 # theorem names that must be present in Props/Cxx.v
 PINNED = {
     "C01": ["c01_myers_valid", "c01_myers_no_panic", "c01_snake_spec", "c01_lcs_valid", "c01_lcs_no_panic", "c01_patience_valid", "c01_patience_no_panic", "c01_strong_implies_spec", "c01_raw_replay", "c01_checker_reflects"],
-    "C02": ["c02_capture_valid", "c02_capture_no_panic", "c02_capture_apply", "c02_identical_only_equal", "c02_ratio", "c02_checker_reflects"],
+    "C02": ["c02_capture_valid", "c02_capture_no_panic", "c02_capture_apply", "c02_identical_only_equal", "c02_ratio", "c02_checker_reflects", "c02_identical_only_equal_all", "c02_patience_identical_items", "c02_capture_dbg_independent_all", "c02_capture_valid_all", "c02_capture_no_panic_all", "c02_capture_apply_all", "c02_ratio_patience"],
     "C03": ["c03_myers_minimal", "c03_lcs_minimal", "c03_cost_lower_bound", "c03_lcs_len_correct"],
     "C04": ["c04_text_reconstruct", "c04_change_index_shape", "c04_items_reconstruct", "c04_textdiff_reconstruct_partition", "c04_textdiff_reconstruct", "c04_capture_valid_patience", "c04_capture_valid_all", "c04_capture_exact_repaired_patience", "c04_capture_no_panic_patience", "c04_capture_diff_eq_patience", "c04_patience_raw"],
-    "C05": ["c05_bytes_eqb_iff", "c05_udiff_render_eq_print_gen", "c05_udiff_render_eq_print", "c05_udiff_applies", "c05_udiff_applies_strict", "c05_udiff_render_applies", "c05_udiff_empty_iff_no_change", "c05_udiff_empty_equal", "c05_udiff_empty_iff_equal", "c05_udiff_header_once", "c05_marker_exactly", "c05_marker_exactly_body", "c05_ends_with_newline_spec", "c05_writer_bytes", "c05_lossy_app_sep", "c05_lossy_ascii", "c05_display_eq_lossy_writer"],
+    "C05": ["c05_bytes_eqb_iff", "c05_udiff_render_eq_print_gen", "c05_udiff_render_eq_print", "c05_udiff_applies", "c05_udiff_applies_strict", "c05_udiff_render_applies", "c05_udiff_empty_iff_no_change", "c05_udiff_empty_equal", "c05_udiff_empty_iff_equal", "c05_udiff_header_once", "c05_marker_exactly", "c05_marker_exactly_body", "c05_ends_with_newline_spec", "c05_writer_bytes", "c05_lossy_app_sep", "c05_lossy_ascii", "c05_display_eq_lossy_writer", "c05_parse_sound", "c05_parse_check_meaning", "c05_parse_print", "c05_parse_print_nohint", "c05_text_render_parse_applies", "c05_render_parse_applies_nohint"],
     "C06": ["c06_Chars_unfold", "c06_decode_partition", "c06_decode_valid_len", "c06_decode_newline_char", "c06_decode_newline_byte", "c06_tok_bytes_ok", "c06_tok_str_ok", "c06_tok_str_bytes_agree", "c06_tokenize_lines_str_bytes", "c06_check_partition_lossless", "c06_tokenize_bytes_lossless", "c06_tokenize_str_lossless", "c06_line_shape_sound", "c06_check_chars_shape_iff"],
-    "C07": ["c07_myers_valid_any_clock", "c07_myers_completes_any_clock", "c07_lcs_valid_any_clock", "c07_lcs_completes_any_clock", "c07_snake_none_only_by_deadline"],
+    "C07": ["c07_myers_valid_any_clock", "c07_myers_completes_any_clock", "c07_lcs_valid_any_clock", "c07_lcs_completes_any_clock", "c07_snake_none_only_by_deadline", "c07_alg_parametric", "c07_never_expire_raw", "c07_never_expire_capture", "c07_never_expire_textdiff", "c07_never_expire_ctr", "c07_none_no_probe"],
     "C08": ["c08_myers_finish_last", "c08_lcs_finish_last", "c08_replace_acts_by_emitting", "c08_replace_inner_failure", "c08_compact_hook", "c08_no_finish_forwards", "c08_no_finish_body", "c08_default_replace", "c08_default_replace_trace"],
-    "C09": ["c09_capture_alternating", "c09_replace_alternates", "c09_checker_reflects"],
+    "C09": ["c09_capture_alternating", "c09_replace_alternates", "c09_checker_reflects", "c09_capture_normal_form", "c09_capture_insert_latest", "c09_compact_replace_normal_form", "c09_needs_nonempty"],
     "C10": ["c10_compact_preserves", "c10_compact_terminates", "c10_compact_total", "c10_compact_hook", "c10_delete_never_slides_up", "c10_replace_exact", "c10_compact_exact_repaired"],
     "C11": ["c11_exact_repaired", "c11_exact_outside_known_class", "c11_replace_exact", "c11_compact_exact_repaired", "c11_checker_reflects", "c11_refuted"],
     "C12": ["c12_eq_ref", "c12_eq_ref_sep", "c12_alternating_sep", "c12_G0", "c12_G1", "c12_G2", "c12_G5", "c12_G6", "c12_G6_count", "c12_G4", "c12_G4_unique", "c12_G4_first_eq", "c12_G4_first_chg", "c12_G4_last_eq", "c12_G4_last_chg", "c12_check_groups", "c12_model_spec", "c12_model_check"],
@@ -31,7 +31,7 @@ PINNED = {
     "C16": ["c16_inline_not_replace", "c16_inline_not_replace_no_emph", "c16_multi_seqs_spec", "c16_orig_slices_spec", "c16_orig_slices_descr", "c16_lnl_token_clean", "c16_inline_replace_spec", "c16_inline_post_pointwise", "c16_inline_replace_spec_all", "c16_inline_replace_bytes", "c16_inline_replace_total"],
     "C17": ["c17_bytes_eqb_spec", "c17_remap_indexes_eq", "c17_remap_slice_spec", "c17_remap_slice_iter", "c17_remap_slice_empty_panics", "c17_remap_slice_empty_inside", "c17_remap_ops_reconstruct", "c17_remap_op_iter_slices"],
     "C18": ["c18_filters_sound", "c18_ratio_le_filters", "c18_exhaustive_ranking", "c18_ranking_exists", "c18_sorted_spec", "c18_any_heap", "c18_ranking_by_ratio", "c18_filters_sound_gen", "c18_exhaustive_ranking_gen", "c18_textdiff_ratio", "c18_ratio_values", "c18_instance_Q"],
-    "C19": ["c19_count_world", "c19_prefix_scan_cost", "c19_suffix_scan_cost", "c19_fwd_step_cost", "c19_bwd_step_cost", "c19_rounds_telescope", "c19_snake_round_cost", "c19_snake_cost", "c19_snake_halves", "c19_myers_work_any_world", "c19_myers_work_bound", "c19_myers_work_bound_lcs"],
+    "C19": ["c19_count_world", "c19_prefix_scan_cost", "c19_suffix_scan_cost", "c19_fwd_step_cost", "c19_bwd_step_cost", "c19_rounds_telescope", "c19_snake_round_cost", "c19_snake_cost", "c19_snake_halves", "c19_myers_work_any_world", "c19_myers_work_bound", "c19_myers_work_bound_lcs", "c19_patience_work_bound", "c19_patience_work_bound_items", "c19_patience_needs_consistent"],
     "C20": ["c20_identify_distinct_ext", "c20_identify_pattern", "c20_identify_first_seen", "c20_rgs_fresh", "c20_rgs_covers", "c20_rgs_next_bound", "c20_relabel_oracles_pointwise", "c20_relabel_identify", "c20_relabel_capture_diff", "c20_relabel_raw_trace", "c20_relabel_textdiff_ops", "c20_str_bytes_same_ops"],
 }
 SPECS = {}
@@ -190,7 +190,7 @@ def run_C02(ctx):
 SPECS["C02"] = dict(
     level="proof",
     manifest=dict(
-        text="Machine-checked theorems (Props/C02.v, closed under the global context): for Myers and LCS, every comparison oracle, every in-bounds pair of ranges, EVERY deadline clock, both build modes: capture_diff never panics and returns ops that walk both ranges left to right without gap or overlap with element-wise equal Equal ops (OpsLoose); applying them to old yields new and the inverted ops turn new into old; identical inputs give exactly one Equal (none for empty inputs); the exact ratio 2*matches/(N+M) is in [0,1] and equals 1 iff the inputs are equal. The proof composes raw validity (C01), the buffering simulation through Compact, Compact's 12 rewrite arms and Replace. Patience: same theorems via Proofs/PatienceCapture.v when present. The extracted check_ops_loose (reflection proved) runs on every captured op list of the real crate incl. TextDiff::ops.",
+        text="Machine-checked theorems (Props/C02.v, closed under the global context): for Myers and LCS, every comparison oracle, every in-bounds pair of ranges, EVERY deadline clock, both build modes: capture_diff never panics and returns ops that walk both ranges left to right without gap or overlap with element-wise equal Equal ops (OpsLoose); applying them to old yields new and the inverted ops turn new into old; identical inputs give exactly one Equal (none for empty inputs); the exact ratio 2*matches/(N+M) is in [0,1] and equals 1 iff the inputs are equal. The proof composes raw validity (C01), the buffering simulation through Compact, Compact's 12 rewrite arms and Replace. The c02_*_all theorems state the same for all three algorithms including Patience (validity, completion, application, ratio; identical inputs give one Equal provided the two uniqueness oracles agree on the identical ranges, which any consistent item equality satisfies; debug assertions never change a result). The extracted check_ops_loose (reflection proved) runs on every captured op list of the real crate incl. TextDiff::ops.",
         note='Trusted: Coq 8.16.1 kernel; extraction with ExtrOcamlBasic only; OCaml driver and Rust harness glue; the tie of the hand-written model to /repo is the correspondence check (differential testing on the generated inputs, rebuilt from the working tree every run), not a proof about the Rust source. usize wrap-around is not modelled.',
         technique='Coq proof of the whole capture pipeline + correspondence + verified checker on implementation output',
     ),
@@ -312,17 +312,35 @@ def run_C07(ctx):
                 td.append((tok, alg, "str", dl, "-", o, n, via))
                 ctx.count("textdiff:deadline-plumbing")
     C.evaluate(ctx, "textdiff-deadline", textdiff_lines(ctx, td), rel, nontrivial=nontrivial_text)
+    # the deadline VALUE that reaches the algorithm (hook: last value passed to deadline_exceeded): an absolute
+    # deadline arrives unchanged through every entry point; a timeout is counted from the start of the diff,
+    # also when the builder was configured earlier, reused or cloned
+    pl = []
+    texts = [("hello world\nfoo bar\nx\n", "hello world\nfoo baz\ny\n"), ("abcabba", "cbabac")]
+    for _ in range(tiered(ctx, 2, 12)):
+        a, b = gen.structured_pair(ctx.rng, 12)
+        if a and b and a != b and a[0] != b[0] and a[-1] != b[-1]:
+            texts.append(("".join(chr(97 + x % 26) for x in a), "".join(chr(97 + x % 26) for x in b)))
+    for o, n in texts:
+        for alg in ALGS:
+            for entry in ("timeout", "timeout_reuse", "timeout_clone", "deadline", "capture", "capture_slices",
+                          "algo", "algo_slices", "inline"):
+                if entry == "inline" and "\n" not in o:
+                    continue
+                pl.append("plumb entry=%s alg=%s gap=12 d=4 old=%s new=%s" % (entry, alg, o.encode().hex(), n.encode().hex()))
+                ctx.count("plumb:" + entry)
+    C.evaluate(ctx, "deadline-value-plumbing", pl, rel, nontrivial=lambda comp, kv, impl: "seen=1" in impl)
 
 
 def relevant_C07(comp, kv):
-    return {"no_panic", "no_error", "raw_valid", "finish_last", "post_expiry_work", "ops_loose", "deadline_plumbed",
+    return {"no_panic", "no_error", "raw_valid", "finish_last", "post_expiry_work", "ops_loose", "deadline_plumbed", "deadline_value",
             "reconstruct_old", "reconstruct_new"}
 
 
 SPECS["C07"] = dict(
     level="proof",
     manifest=dict(
-        text="Machine-checked theorems (Props/C07.v, closed under the global context): the validity and completion theorems of C01 hold for EVERY clock, i.e. whichever probe the deadline expires at (Myers: the snake answers None only after a probe answered true and conquer then emits one delete and one insert; LCS: the table is abandoned and the tail emits the remaining delete/insert), with finish exactly once and last. Not proved, checked on the real code only: 'never expiring = no deadline' (compared on every case), the post-expiry comparison bound (counted by the harness through the cfg(similar_verif) clock, bound 8(N+M)+8) and the plumbing of TextDiffConfig::deadline/timeout and capture_diff_deadline (probe counts compared with the model).",
+        text="Machine-checked theorems (Props/C07.v, closed under the global context): the validity and completion theorems of C01 hold for EVERY clock, i.e. whichever probe the deadline expires at (Myers: the snake answers None only after a probe answered true and conquer then emits one delete and one insert; LCS: the table is abandoned and the tail emits the remaining delete/insert), with finish exactly once and last. A deadline that never expires gives exactly the result of no deadline: proved for raw traces, capture_diff and text diffs of all three algorithms with no premise at all (c07_never_expire_*, from a generic parametricity theorem c07_alg_parametric: two hook/clock worlds that answer alike make every algorithm run alike, including equal panics). Checked on the real code (see evidence for theorems added later): the post-expiry comparison bound (counted by the harness through the cfg(similar_verif) clock, bound 8(N+M)+8) and the plumbing: probe counts compared with the model, and the deadline VALUE that reaches deadline_exceeded (hook) must be the configured instant, or diff start + timeout, through nine entry points.",
         note='Trusted: Coq 8.16.1 kernel; extraction with ExtrOcamlBasic only; OCaml driver and Rust harness glue; the tie of the hand-written model to /repo is the correspondence check (differential testing on the generated inputs, rebuilt from the working tree every run), not a proof about the Rust source. usize wrap-around is not modelled.',
         technique='Coq proof over all clocks + fault enumeration of every expiry point k on the real code via the virtual-clock hook + verified checker',
     ),
@@ -439,9 +457,9 @@ def run_C09(ctx):
 SPECS["C09"] = dict(
     level="proof",
     manifest=dict(
-        text="Machine-checked theorems (Props/C09.v, closed under the global context): captured ops strictly alternate Equal / non-Equal with no empty op (so a deletion adjacent to an insertion is one Replace), for every clock and build mode, and Replace produces this from ANY loosely valid non-empty script. NOT proved: the 'insert sits at its latest position' clause; it is decided on the real code by the extracted check_insert_latest (reflection proved) on every captured list and on all valid scripts of small pairs pushed through Compact+Replace.",
+        text="Machine-checked theorems (Props/C09.v, closed under the global context): captured ops strictly alternate Equal / non-Equal with no empty op (so a deletion adjacent to an insertion is one Replace), for every clock and build mode, and Replace produces this from ANY loosely valid non-empty script. The 'insert sits at its latest position' clause is proved too (c09_capture_normal_form for all three algorithms and every clock; c09_compact_replace_normal_form for any valid script without empty ops through Compact+Replace; c09_needs_nonempty shows the premise is necessary). The extracted check_normal (reflection proved) decides the same on every captured list of the real crate and on all valid scripts of small pairs pushed through Compact+Replace.",
         note='Trusted: Coq 8.16.1 kernel; extraction with ExtrOcamlBasic only; OCaml driver and Rust harness glue; the tie of the hand-written model to /repo is the correspondence check (differential testing on the generated inputs, rebuilt from the working tree every run), not a proof about the Rust source. usize wrap-around is not modelled.',
-        technique='Coq proof (alternation, non-emptiness) + verified checker for the full normal form on implementation output + correspondence',
+        technique='Coq proof of the full normal form (alternation, non-emptiness, insert-latest) + verified checker on implementation output + correspondence',
     ),
     relevant=lambda comp, kv: {"no_panic", "normal"} if kv.get("stack", "compact_replace") == "compact_replace" else {"no_panic"},
     run=run_C09,
@@ -982,9 +1000,9 @@ def run_C05(ctx):
 SPECS["C05"] = dict(
     level="proof",
     manifest=dict(
-        text="Machine-checked theorems (Props/C05.v, closed under the global context): for index-exact alternating line ops the model of the renderer equals an independent printer of hunk records (render = print o model_hunks, no panic), those hunk records pass the independent strict applier check_patch (counts = body counts, shown starts = true positions, increasing non-overlapping, every context/'-' line matches, result = new text, every hunk contains a change with <= radius context at the edges and deletions before insertions), empty output iff no change, file header once and only with a hunk, the no-newline marker exactly on lines lacking one, the writer emits line bytes unchanged and Display = lossy(writer). The OpsExact premise is exactly what known finding F5 breaks; failing cases are attributed by the cfg(similar_verif) swap-repair switch. The real output is parsed strictly (glue) and fed to the extracted check_patch.",
+        text="Machine-checked theorems (Props/C05.v, closed under the global context): for index-exact alternating line ops the model of the renderer equals an independent printer of hunk records (render = print o model_hunks, no panic), those hunk records pass the independent strict applier check_patch (counts = body counts, shown starts = true positions, increasing non-overlapping, every context/'-' line matches, result = new text, every hunk contains a change with <= radius context at the edges and deletions before insertions), empty output iff no change, file header once and only with a hunk, the no-newline marker exactly on lines lacking one, the writer emits line bytes unchanged and Display = lossy(writer). The OpsExact premise is exactly what known finding F5 breaks; failing cases are attributed by the cfg(similar_verif) swap-repair switch. The real output is parsed by the extracted parse_udiff (Spec/UdiffParse.v), proved sound for both hint settings (c05_parse_sound: whatever it accepts prints back to exactly the bytes; counts, canonical numbers, terminators and the marker are enforced) and complete on the renderer's image (c05_parse_print, c05_text_render_parse_applies), and fed to the extracted check_patch (c05_parse_check_meaning); with the hint off the normalised form is checked (c05_render_parse_applies_nohint).",
         note='Trusted: Coq 8.16.1 kernel; extraction with ExtrOcamlBasic only; OCaml driver and Rust harness glue; the tie of the hand-written model to /repo is the correspondence check (differential testing on the generated inputs, rebuilt from the working tree every run), not a proof about the Rust source. usize wrap-around is not modelled.',
-        technique='Coq proof (renderer = printer of hunks; hunks apply strictly) + correspondence byte-for-byte + extracted strict applier on parsed implementation output',
+        technique='Coq proof (renderer = printer of hunks; hunks apply strictly) + correspondence byte-for-byte + extracted verified parser + strict applier on the output bytes of the implementation',
     ),
     relevant=lambda comp, kv: {"no_panic", "udiff_empty_iff_equal", "display_eq_lossy_writer", "display_eq_writer",
                                "udiff_wellformed", "udiff_applies"},
@@ -1351,15 +1369,15 @@ def run_C19(ctx):
         nn = (0 if kv["old"] == "-" else kv["old"].count(",") + 1) + (0 if kv["new"] == "-" else kv["new"].count(",") + 1)
         d = sum(int(c.split(":")[2]) if c[0] == "D" else int(c.split(":")[3]) for c in im.split(" ")[0].split("=", 1)[1].split(",") if c[0] in "DI")
         worst = max(worst, int(m.group(1)) / ((nn + 1) * (d + 1)))
-    ctx.notes.append("largest observed comparisons/((N+M+1)(D+1)) on the large inputs: %.3f (bound checked: 6)" % worst)
+    ctx.notes.append("largest observed comparisons/((N+M+1)(D+1)) on the large inputs: %.3f (bound checked: 6 for Myers, 12 for Patience — the proved constants)" % worst)
 
 
 SPECS["C19"] = dict(
     level=("proof" if __import__("os").path.exists(__import__("os").path.join(C.VERIF, "coq", "Props", "C19.v")) else "translation_validation"),
     manifest=dict(
-        text="The comparison count of the model equals the real crate's count (counting PartialEq) exactly on all small worlds and random pairs (Myers and Patience), and comparisons <= 6 (N+M+1)(D+1) is checked up to 3000/4000 items for near-identical, block-move, periodic, all-unique and unrelated inputs. Theorems about the model's count (per-scan, per-round and overall bound) are in Props/C19.v when present; see the evidence theorem list for what is proved.",
+        text="The comparison count of the model equals the real crate's count (counting PartialEq) exactly on all small worlds and random pairs (Myers and Patience), and the proved bounds are checked on the real counts up to 4000 items for near-identical, block-move, periodic, all-unique and unrelated inputs. Machine-checked theorems (Props/C19.v, closed under the global context): Myers makes at most 6 (N+M+1)(D+1) comparisons, D the optimal cost (c19_myers_work_bound; per scan, per round, per search and the halving recursion), and Patience at most 12 (N+M+1)(D+1) with D the size of the script it reports, provided the three comparison oracles behave like one equality on items (c19_patience_work_bound; c19_patience_needs_consistent shows the bound fails for every constant with contradictory Hash/Eq).",
         note='Trusted: Coq 8.16.1 kernel; extraction with ExtrOcamlBasic only; OCaml driver and Rust harness glue; the tie of the hand-written model to /repo is the correspondence check (differential testing on the generated inputs, rebuilt from the working tree every run), not a proof about the Rust source. usize wrap-around is not modelled.',
-        technique='exact count correspondence model/implementation + bound checked on large structured inputs; Coq proof of the count bound (partial, see evidence)',
+        technique='exact count correspondence model/implementation + bound checked on large structured inputs; Coq proof of the count bounds for Myers (C=6) and Patience (C=12)',
     ),
     relevant=lambda comp, kv: {"no_panic", "work_bound"},
     run=run_C19,
